@@ -44,7 +44,7 @@ def test_x(seed, which, d=1):
 
 
 class ExactModel(gpytorch.models.ExactGP):
-    def __init__(self, X, y, fam, seed=0, batch_shape=(), noise=None):
+    def __init__(self, X, y, fam, seed=0, batch_shape=(), noise=None, priors=()):
         # own the library's random initialisations (LinearMean weights, IndexKernel factors, RFF weights, ...)
         torch.manual_seed(util.seed_for(seed, "init|" + fam))
         d = X.shape[-1]
@@ -57,14 +57,22 @@ class ExactModel(gpytorch.models.ExactGP):
             lik = gpytorch.likelihoods.FixedNoiseGaussianLikelihood(
                 noise=noise, learn_additional_noise=(fam == "fixednoise_learn"), batch_shape=bs)
         elif fam in ("multitask", "multitask_r0", "multitask_notask"):
+            tp = None
+            if "task" in priors:
+                tp = gpytorch.priors.LKJCovariancePrior(2, 1.0, gpytorch.priors.SmoothedBoxPrior(0.05, 3.0))
             lik = gpytorch.likelihoods.MultitaskGaussianLikelihood(
                 num_tasks=2, rank={"multitask": 1, "multitask_r0": 0, "multitask_notask": 0}[fam],
-                has_task_noise=(fam != "multitask_notask"), batch_shape=bs)
+                has_task_noise=(fam != "multitask_notask"), batch_shape=bs, task_prior=tp)
         else:
-            lik = gpytorch.likelihoods.GaussianLikelihood(batch_shape=bs)
+            lik = gpytorch.likelihoods.GaussianLikelihood(
+                batch_shape=bs, noise_prior=gpytorch.priors.LogNormalPrior(-1.0, 0.5) if "noise" in priors else None)
         super().__init__(X, y, lik)
-        self.mean_module = gpytorch.means.ConstantMean(batch_shape=bs)
-        base = K.ScaleKernel(K.RBFKernel(batch_shape=bs), batch_shape=bs)
+        P = gpytorch.priors
+        self.prior_spec = {}
+        self.mean_module = gpytorch.means.ConstantMean(batch_shape=bs, constant_prior=P.NormalPrior(0.0, 2.0) if "const" in priors else None)
+        base = K.ScaleKernel(K.RBFKernel(batch_shape=bs, lengthscale_prior=P.GammaPrior(2.0, 3.0) if "ls" in priors else None),
+                             batch_shape=bs, outputscale_prior=(P.SmoothedBoxPrior(0.1, 4.0) if "os_box" in priors else
+                                                                P.HalfCauchyPrior(1.5) if "os" in priors else None))
         if fam in ("exact", "fixednoise", "fixednoise_learn"):
             self.covar_module = base
         elif fam == "kiss":
